@@ -500,4 +500,14 @@ IndexSound ==
 NoLeak == \A p \in Procs : pr[p].pc = "idle" => (pr[p].dfd = 0 /\ pr[p].ifd = 0)
 
 View == <<dname, dino, iname, iino, stamp, pr, nf, stored>>
+
+\* View of the damage generation configs (Record = TRUE): the state plus which faults hit which file
+\* after how many operations.  Two behaviours that reach the same directory through different damage
+\* (truncated index vs truncated data file between two Puts) are then both represented, so the repair
+\* path of Put is replayed for every kind of damage and not only for the one TLC met first.
+FaultSig ==
+  LET F == { j \in 1..Len(hist) : hist[j].p = 0 }
+      OpsBefore(i) == Cardinality({ j \in 1..i : hist[j].a = "start" })
+  IN [ i \in F |-> <<hist[i].a, hist[i].o, hist[i].k, hist[i].v, OpsBefore(i)>> ]
+ViewFaults == <<View, FaultSig>>
 =============================================================================
